@@ -1,13 +1,13 @@
 """C05 checkpoint balance (structural clauses)"""
-from ..rules import holds, delivery
+from ..rules import holds, delivery, topology
 from .common import hold_classes, declare
 
 RULES = ['EMIT-AFTER-REL', 'SCRATCH-SLOT', 'LINEAR-HOLD', 'NO-DOUBLE-REL', 'RETAIN-ONCE', 'EMIT-BALANCE', 'REMOVE-RELEASES', 'REL-SHAPE',
-         'EMITTED-STILL-HELD', 'SWAP-ATOMIC']
+         'EMITTED-STILL-HELD', 'SWAP-ATOMIC', 'HOLD-BEFORE-ESCAPE', 'HOOKS-ONLY', 'REL-WHILE-BUFFERED']
 FLOORS = {'LINEAR-HOLD': 13, 'RETAIN-ONCE': 13, 'REMOVE-RELEASES': 18, 'REL-SHAPE': 50, 'EMIT-BALANCE': 1,
-          'NO-DOUBLE-REL': 15, 'EMITTED-STILL-HELD': 1}
+          'NO-DOUBLE-REL': 15, 'EMITTED-STILL-HELD': 1, 'HOLD-BEFORE-ESCAPE': 8, 'HOOKS-ONLY': 5}
 
-META = {'level': "Static ownership accounting on every enumerated path of every node method: each retain is stored/released/handed on (LINEAR-HOLD), every removal from a taint-discovered metadata container releases what it removed (REMOVE-RELEASES), no double release, _emit's retain/release balance, flat-list shape of everything handed to _emit/_retain_refs/_release_refs. Necessary conditions of balance; the run-time equality 'count == live holders' is not decided.", 'note': 'Trusted: CPython ast, evaluation order as encoded, shape lattice transfer functions, exception tables (combining nodes, zip_latest scratch slot) printed in the evidence. One genuine defect is a known finding (latest keeps its hold after emitting; pinned by test_latest_ref_counts).', 'technique': 'static analysis: bounded path enumeration + linear-ownership rules and a shape lattice (LINEAR-HOLD, REMOVE-RELEASES, NO-DOUBLE-REL, EMIT-BALANCE, REL-SHAPE, EMITTED-STILL-HELD)'}
+META = {'level': "Static ownership accounting on every enumerated path of every node method: each retain is stored/released/handed on (LINEAR-HOLD), every removal from a taint-discovered metadata container releases what it removed (REMOVE-RELEASES), no double release, _emit's retain/release balance, flat-list shape of everything handed to _emit/_retain_refs/_release_refs; an element a node keeps across a suspension is retained before the suspension, not after it (HOLD-BEFORE-ESCAPE: otherwise its count touches zero while it waits and the callback fires a second time later). Necessary conditions of balance; the run-time equality 'count == live holders' is not decided.", 'note': 'Trusted: CPython ast, evaluation order as encoded, shape lattice transfer functions, exception tables (combining nodes, zip_latest scratch slot) printed in the evidence. One genuine defect is a known finding (latest keeps its hold after emitting; pinned by test_latest_ref_counts).', 'technique': 'static analysis: bounded path enumeration + linear-ownership rules and a shape lattice (LINEAR-HOLD, REMOVE-RELEASES, NO-DOUBLE-REL, EMIT-BALANCE, REL-SHAPE, EMITTED-STILL-HELD)'}
 
 
 def run(ctx, R):
@@ -18,11 +18,13 @@ def run(ctx, R):
         '_emit/_retain_refs/_release_refs is a flat list (shape lattice). Necessary conditions of C05; the run-time '
         'equality count == live holders is not decided.')
     R.not_decided = ['the numeric equality "count = number of live holders" at run time']
-    declare(R, {**holds.RULES, **delivery.RULES}, RULES, FLOORS)
+    declare(R, {**holds.RULES, **delivery.RULES, **topology.RULES}, RULES, FLOORS)
     for c in hold_classes(ctx):
         R.run(holds.check_class, ctx, R, c, rules=set(RULES))
         R.run(holds.check_in_flight, ctx, R, c)
     R.run(holds.check_emit, ctx, R)
     R.run(delivery.check_swap_atomic, ctx, R, [c for c in hold_classes(ctx) if c.module.name == 'streamz.core'])
+    # the releases that disconnect()/destroy() owe are made by the hook overrides: the edits must reach them
+    R.run(topology.check_hooks_only, ctx, R)
     for k in [k for k in R.obs if k[0] not in RULES]:
         del R.obs[k]
